@@ -1,5 +1,24 @@
 import Driver.Core
+import Driver.C01
+import Driver.C02
+import Driver.C03
+import Driver.C04
+import Driver.C05
+import Driver.C06
+import Driver.C07
+import Driver.C08
+import Driver.C09
+import Driver.C10
+import Driver.C11
 import Driver.C12
+import Driver.C13
+import Driver.C14
+import Driver.C15
+import Driver.C16
+import Driver.C17
+import Driver.C18
+import Driver.C19
+import Driver.C20
 /-!
 `acra_model`: one operation per input line, one canonical result per output line. It runs the very
 definitions the theorems of `AcraModel/Props` are about. Unknown or unparseable ops print `bad-op`
@@ -13,7 +32,26 @@ def dispatch (line : String) : String :=
     let r :=
       match op.splitOn "." with
       | "core" :: rest => Driver.Core.handle (".".intercalate rest) args
+      | "C01" :: rest => Driver.C01.handle (".".intercalate rest) args
+      | "C02" :: rest => Driver.C02.handle (".".intercalate rest) args
+      | "C03" :: rest => Driver.C03.handle (".".intercalate rest) args
+      | "C04" :: rest => Driver.C04.handle (".".intercalate rest) args
+      | "C05" :: rest => Driver.C05.handle (".".intercalate rest) args
+      | "C06" :: rest => Driver.C06.handle (".".intercalate rest) args
+      | "C07" :: rest => Driver.C07.handle (".".intercalate rest) args
+      | "C08" :: rest => Driver.C08.handle (".".intercalate rest) args
+      | "C09" :: rest => Driver.C09.handle (".".intercalate rest) args
+      | "C10" :: rest => Driver.C10.handle (".".intercalate rest) args
+      | "C11" :: rest => Driver.C11.handle (".".intercalate rest) args
       | "C12" :: rest => Driver.C12.handle (".".intercalate rest) args
+      | "C13" :: rest => Driver.C13.handle (".".intercalate rest) args
+      | "C14" :: rest => Driver.C14.handle (".".intercalate rest) args
+      | "C15" :: rest => Driver.C15.handle (".".intercalate rest) args
+      | "C16" :: rest => Driver.C16.handle (".".intercalate rest) args
+      | "C17" :: rest => Driver.C17.handle (".".intercalate rest) args
+      | "C18" :: rest => Driver.C18.handle (".".intercalate rest) args
+      | "C19" :: rest => Driver.C19.handle (".".intercalate rest) args
+      | "C20" :: rest => Driver.C20.handle (".".intercalate rest) args
       | _ => none
     r.getD "bad-op"
 
